@@ -79,7 +79,8 @@ def gini_coefficient(y):
     i_sum = np.zeros(n)
     for i in prange(n):
         for j in range(n):
-            i_sum[i] += abs(y[i] - y[j])
+            # float(): the difference of unsigned integers would wrap
+            i_sum[i] += abs(float(y[i]) - float(y[j]))
     return np.sum(i_sum) / (2 * n * np.sum(y))
 
 
@@ -147,7 +148,7 @@ def rank_size(data, c=1.0):
         Size data for top (c x 100)% of the observations
         
     """
-    w = - np.sort(- data)                  # Reverse sort
+    w = np.sort(np.asarray(data))[::-1]    # Reverse sort
     w = w[:int(len(w) * c)]                # extract top (c * 100)%
     rank_data = np.arange(len(w)) + 1
     size_data = w
